@@ -265,10 +265,15 @@ def find_item(t, m, selector, dm=None):
         a = [mm for mm in re.compile(rs_).finditer(t, s0, e0) if m[mm.start()]]
         if len(a) != 1:
             raise LookupError('%s: %d start matches' % (selector, len(a)))
+        excl = re_.startswith('<')      # `<RE`: the slice ends with the line BEFORE the one where RE matches
+        if excl:
+            re_ = re_[1:]
         b = [mm for mm in re.compile(re_).finditer(t, a[0].end(), e0) if m[mm.start()]]
         if len(b) < 1:
             raise LookupError('%s: no end match' % selector)
         st = t.rfind('\n', 0, a[0].start()) + 1
+        if excl:
+            return st, t.rfind('\n', 0, b[0].start())
         en = t.find('\n', b[0].end())
         return st, (en if en >= 0 else e0)
     if kind == 'arm':
@@ -291,7 +296,7 @@ def find_item(t, m, selector, dm=None):
         parts = ['impl', selector[len('impl:'):]]
     else:
         parts = selector.split(':')
-    if kind in ('fn', 'struct', 'enum', 'trait', 'const', 'type', 'static'):
+    if kind in ('fn', 'struct', 'enum', 'trait', 'const', 'type', 'static', 'mod'):
         name = parts[1]
         kw = kind
         hits = []
